@@ -21,9 +21,9 @@ def virtual_tokens(tree, kinds=None):
     return toks
 
 
-def model_listing(jbin, tree, excluded=()):
+def model_listing(jbin, tree, excluded=(), kinds=None):
     """[(relpath, entrytext)] as the model lists `tree` (visible entries only, model order)."""
-    line = 'LIST ex=%s S %s E' % (';'.join(hexs(p) for p in excluded) or '-', ' '.join(virtual_tokens(tree)))
+    line = 'LIST ex=%s S %s E' % (';'.join(hexs(p) for p in excluded) or '-', ' '.join(virtual_tokens(tree, kinds)))
     out = vlib.judge(jbin, [line])[0]
     res = []
     if out != '-':
@@ -69,10 +69,10 @@ def all_interleavings(ns, nd):
         yield ''.join(s)
 
 
-def harness_line(sc, ls, ld, sched, errs=(), srcfail=()):
+def harness_line(sc, ls, ld, sched, errs=(), srcfail=(), diff=0):
     c = sc.cfg
     head = ['cfg=%s,%s,%s,%s,%s,%d' % (c['newer'], c['older'], c['same'], c['entry'], c['root'], 1 if sc.dry else 0),
-            'diff=0', 'sroot=' + root_entry(sc.src), 'droot=' + root_entry(sc.dest), 'sched=' + (sched or '-'),
+            'diff=%d' % diff, 'sroot=' + root_entry(sc.src), 'droot=' + root_entry(sc.dest), 'sched=' + (sched or '-'),
             'errs=' + (','.join('%d:%d' % e for e in errs) or '-'), 'srcfail=' + (','.join(map(str, srcfail)) or '-')]
     parts = head + ['S']
     for rel, ent in ls:
@@ -88,14 +88,14 @@ def harness_line(sc, ls, ld, sched, errs=(), srcfail=()):
     return ' '.join(parts)
 
 
-def model_line(sc, ls, ld, sched, fd=(), fsrc=(), lag=0):
+def model_line(sc, ls, ld, sched, fd=(), fsrc=(), lag=0, diff=0, kinds_s=None, kinds_d=None):
     c = sc.cfg
-    cfg = ','.join(['0', 'U', c['newer'], c['older'], c['same'], c['entry'], c['root'], '1' if sc.dry else '0'])
+    cfg = ','.join([str(diff), 'U', c['newer'], c['older'], c['same'], c['entry'], c['root'], '1' if sc.dry else '0'])
     bits = ''.join('1' if ch == 'S' else '0' for ch in sched) or '-'
     parts = ['RUN', 'cfg=' + cfg, 'anc=ok', 'ans=' + (','.join(sc.answers) or '-'), 'bits=' + bits,
              'ex=' + (';'.join(hexs(p) for p in sc.excluded) or '-'),
              'fd=' + (','.join(map(str, fd)) or '-'), 'fsrc=' + (','.join(map(str, fsrc)) or '-'), 'lag=%d' % lag,
-             'S'] + virtual_tokens(sc.src) + ['E', 'D'] + virtual_tokens(sc.dest) + ['E',
+             'S'] + virtual_tokens(sc.src, kinds_s) + ['E', 'D'] + virtual_tokens(sc.dest, kinds_d) + ['E',
              'LS'] + [hexs(p) for p, _ in ls] + ['E', 'LD'] + [hexs(p) for p, _ in ld] + ['E']
     return ' '.join(parts)
 
